@@ -24,7 +24,12 @@ STRUCT = dict(FULL, ops=["mk_group", "add_data", "pg_add", "pg_rm", "move", "cop
 # edits only: assignments interleaved with re-open / GC
 EDIT = dict(FULL, ops=["rename", "flag", "values", "vertices", "meta", "pg_add", "pg_rm", "pg_del", "move", "reopen", "gc"], ws2=False,
             move_data=False)
-ALPHAS = {"FULL": FULL, "STRUCT": STRUCT, "EDIT": EDIT}
+# deletion-centred: builders, both removal entry points, permission flag, follow-ups
+DEL = dict(FULL, ops=["flag", "add_data", "pg_add", "pg_rm", "pg_del", "mk_group", "move", "copy", "rm_ws", "rm_par", "reopen", "gc"],
+           flags=("allow_delete",), dkinds=("fv",), classes=("Points",), caps={"groups": 3, "objects": 3, "data_per_object": 4, "entities": 16},
+           copy_data=False)
+DELCORE = dict(DEL, ops=["flag", "pg_rm", "rm_ws", "rm_par", "copy", "reopen", "gc"], copy_targets=("same", "root2"))
+ALPHAS = {"FULL": FULL, "STRUCT": STRUCT, "EDIT": EDIT, "DEL": DEL, "DELCORE": DELCORE}
 
 DROP_ASC = {"uid_order": "asc", "policy": "drop"}
 HOLD_DESC = {"uid_order": "desc", "policy": "hold"}
